@@ -15,7 +15,25 @@ import (
 	"github.com/tdakkota/docker-logql/verifharness/model"
 )
 
+// c08Check decides one case; the query is then evaluated once more without a limit (the limit
+// only cuts a prefix: everything else about the answer must hold again, whatever an earlier
+// evaluation of the same query left behind in the process).
 func c08Check(c LogCase) (r evid.Result) {
+	r = c08CheckOnce(c)
+	if r.Violation != nil || c.Limit <= 0 {
+		return r
+	}
+	again := c
+	again.Limit = -1
+	r2 := c08CheckOnce(again)
+	r.Evals = 2
+	if r2.Violation != nil {
+		r.Violation = evid.Viol(r2.Violation.Sig, "second evaluation: %s", r2.Violation.Msg)
+	}
+	return r
+}
+
+func c08CheckOnce(c LogCase) (r evid.Result) {
 	recs := append([]model.Rec(nil), c.Recs...)
 	model.SortRecs(recs)
 	stageClasses(&r, &c.Query)
